@@ -14,8 +14,9 @@ import os
 import re
 
 from vlib import core
+from props import _c05_revoke
 
-BINS = [b for b in ["h_shachain", "h_revoke"] if os.path.exists(os.path.join(core.HARNESS, "src", "bin", b + ".rs"))]
+BINS = [b for b in ["h_shachain", "h_revoke", "h_reest_probe"] if os.path.exists(os.path.join(core.HARNESS, "src", "bin", b + ".rs"))]
 LEVEL = "proof"
 MANIFEST = {
     "category": "proof",
@@ -402,10 +403,26 @@ def run(ctx):
     if sdis:
         broken.append({"correspondence": "h_shachain vs Model/Shachain.v", "n": len(sdis), "first_disagreements": sdis[:3]})
     # ---- revocation traces
-    from props import _c05_revoke
     rres = _c05_revoke.revoke_corr(ctx, okm) if "h_revoke" in BINS else None
     if rres is not None and rres.get("disagreements"):
         broken.append({"correspondence": "h_revoke vs Model/RevokeLog.v", "n": len(rres["disagreements"]), "first_disagreements": rres["disagreements"][:3]})
+    # ---- known finding C05-F1: deterministic probe on the implementation
+    probe_hit = False
+    if "h_reest_probe" in BINS:
+        rc, lines = ctx.run_bin("h_reest_probe", "", args=["a"], timeout=300)
+        pl = [l for l in lines if l.startswith("P ")]
+        scs = [l for l in pl if "sign_counterparty(" in l and "signer of node0" in l]
+        txids = set(l.split()[-1] for l in scs)
+        nums = set(l.split("sign_counterparty(")[1].split(")")[0] for l in scs)
+        nomon = any("ChannelMonitorUpdates applied by node0 for this: 0" in l for l in pl)
+        ctx.coverage["reestablish_probe"] = {"rc": rc, "sign_counterparty_calls": len(scs), "distinct_txids": len(txids), "numbers": sorted(nums), "no_monitor_update": nomon}
+        if rc == 0 and len(scs) >= 2 and len(nums) == 1 and len(txids) >= 2:
+            probe_hit = True
+            ctx.violation("C05 fails on the implementation: a forged channel_reestablish makes the node sign a never-sent counterparty commitment number without recording it; the next ordinary update signs a second, different commitment with the same number",
+                          {"failing_input": {"probe": pl}, "replay_cmd": "%s a | grep '^P '" % ctx.bin_path("h_reest_probe")}, True,
+                          key=_c05_revoke.KNOWN_F1)
+        elif rc != 0:
+            broken.append({"correspondence": "h_reest_probe crashed", "tail": lines[-10:]})
     ev_total = ctx.coverage.get("shachain_ops", 0) + ctx.coverage.get("revoke_steps", 0)
     ctx.coverage["evaluations"] = ev_total
     ctx.coverage["distinct_nontrivial"] = ctx.coverage.get("shachain_ops", 0) + ctx.coverage.get("revoke_distinct_nontrivial", 0)
